@@ -228,6 +228,7 @@ func init() {
 		c.FaultPct = []int{10, 25, 40}[r.Intn(3)]
 		c.Weights["crash"] = 6
 		c.Weights["advance"] = 10
+		c.Weights["mkrev"] = 3 // orphan / marker revisions: the adoption and label-sync calls get faults too
 	}}
 
 	// the documented scale-in edit on a healthy converged set, nothing else disturbing
